@@ -1,6 +1,7 @@
 package smtp
 
 import (
+	"crypto/tls"
 	"io"
 	"net"
 	"strconv"
@@ -340,4 +341,51 @@ func verif_C07_bdat_huge() {
 	}
 	verifAssert(verifGoroutinesAlive() == 0, "C07.huge-no-goroutine-left")
 	verifReach("C07.huge-end")
+}
+
+// verif_C07_abandon_starttls_stub: the client abandons a chunked transfer by
+// upgrading the connection: MAIL, RCPT, a non-LAST chunk, STARTTLS (successful
+// handshake), then inside TLS a new greeting and a LAST chunk. The backend's
+// reader of the abandoned transfer fails with a non-EOF error, the LAST chunk
+// is refused (there is no transaction), nothing is delivered.
+func verif_C07_abandon_starttls_stub() {
+	verifPreemptBound(0)
+	var got []byte
+	var rerr error
+	be := &vbackend{}
+	be.dataFn = func(_ *vsession, r io.Reader) error {
+		got, rerr = verifReadAll(r, 4)
+		if rerr == io.EOF {
+			return nil
+		}
+		return rerr
+	}
+	s, _ := verifServer(be)
+	s.TLSConfig = &tls.Config{}
+	plain := "EHLO p.example\r\nMAIL FROM:<s@v>\r\nRCPT TO:<r@v>\r\nBDAT 5\r\nhelloSTARTTLS\r\n"
+	helloFirst := nondetBool()
+	inside := ""
+	if helloFirst {
+		inside = "EHLO i.example\r\n"
+	}
+	inside += "BDAT 5 LAST\r\nworldNOOP\r\n"
+	vc := &vconn{in: []byte(plain), final: io.EOF, tlsIn: []byte(inside), tlsFinal: io.EOF}
+	conn := newConn(vc, s)
+	s.handleConn(conn)
+	verifSettle()
+	ireps, wf := verifParseReplies(vc.tlsOut)
+	verifObserve("c07tls", helloFirst, wf, len(ireps), len(got), rerr == io.EOF)
+	k := 0
+	if helloFirst {
+		k = 1
+	}
+	verifAssert(wf && len(ireps) == k+2, "C07.starttls-abandon-replies")
+	verifAssert(be.count("Data") == 1 && rerr != nil && rerr != io.EOF, "C07.starttls-abandoned-transfer-never-eof")
+	verifAssert(string(got) == "hello" || verifIsPrefix(got, []byte("hello")), "C07.starttls-abandon-octets-are-a-prefix")
+	if wf && len(ireps) == k+2 {
+		verifAssert(ireps[k].code/100 == 5, "C07.starttls-last-chunk-without-transaction-refused")
+		verifAssert(ireps[k+1].code == 250, "C07.starttls-command-mode-after")
+	}
+	verifAssert(verifGoroutinesAlive() == 0, "C07.starttls-abandon-no-goroutine-left")
+	verifReach("C07.starttls-abandon-end")
 }
